@@ -993,7 +993,7 @@ def cc_tables(ctx):
                                     t2[lit[0][1]] = v[1].split('::')[-1]
     inv = {v: k for k, v in t1.items()}
     ok = sorted(t1) == sorted(variants) and len(variants) >= 7 and t2 == inv
-    ctx.ob(['C16'], 'R-TABLE', 'cc|inverse-tables', ok, 'as_str covers every variant of CallingConvention and from_str is exactly its inverse: %s' % t1, loc(fa.span))
+    ctx.ob(['C16', 'C05', 'C04'], 'R-TABLE', 'cc|inverse-tables', ok, 'as_str covers every variant of CallingConvention and from_str is exactly its inverse: %s' % t1, loc(fa.span))
     abis = rustc_abis()
     bad = [v for v in t1.values() if v not in abis] if abis else ['(cannot obtain rustc ABI list)']
     ctx.ob(['C16', 'C13'], 'R-TABLE', 'cc|known-to-rustc', not bad, 'every calling-convention string is an ABI name rustc accepts (rustc --print=calling-conventions): unknown %s' % bad, loc(fa.span))
